@@ -2288,7 +2288,7 @@ func genTrans(repo, outDir string) error {
 	if p, err := loadPkg(repo, "internal/corerad"); err != nil {
 		failf("translate: verify.go: %v", err)
 	} else {
-		for _, name := range []string{"checkRAs", "checkMTUs", "checkCaptivePortal", "checkPrefixes", "checkRoutes"} {
+		for _, name := range []string{"checkRAs", "checkMTUs", "checkCaptivePortal", "checkPrefixes", "checkRoutes", "checkRDNSS", "checkDNSSL"} {
 			d, err := translateVerifyFunc(p, name)
 			if err != nil {
 				failf("%s", err)
